@@ -83,6 +83,7 @@ def pelt_float_stream(ctx, count):
                  sample={"stream": "binary64-table PELT", "cost": name, "n": n, "m": m, "p": p, "impl_changepoints": cpts})
         ctx.count("float_stream", "pelt:" + name)
     bad = coq_bad_cases(ctx.cid, HEADER, "fpelt_case", "fpelt_case_ok", terms, shard=12, tag="fpelt")
+    _spec_all(ctx, metas, bad, lambda mt: _pelt_spec(mt, mt["_tab"]), "PELT", lambda mt: f"PELT({mt['cost']}) on float data (n={mt['n']}, m={mt['min_segment_length']}, p={mt['p']}, {mt['data']})")
     for i in bad[:20]:
         mt = metas[i]
         err = _pelt_spec(mt, mt.pop("_tab"))
@@ -132,6 +133,8 @@ def mw_float_stream(ctx, count):
                  sample={"stream": "binary64-table MovingWindow", "score": name, "n": n, "bandwidth": b, "impl_changepoints": cpts})
         ctx.count("float_stream", "mw:" + name)
     bad = coq_bad_cases(ctx.cid, HEADER, "fmw_case", "fmw_case_ok", terms, shard=60, tag="fmw")
+    _spec_all(ctx, metas, bad, lambda mt: _mw_spec(mt, mt["_row"], mt["_scores"]), "MovingWindow",
+              lambda mt: f"MovingWindow({mt['score']}) on float data (n={mt['n']}, bandwidth={mt['bandwidth']}, p={mt['p']}, {mt['data']})")
     for i in bad[:20]:
         mt = metas[i]
         err = _mw_spec(mt, mt.pop("_row"), mt.pop("_scores"))
@@ -185,6 +188,8 @@ def sbs_float_stream(ctx, count):
                  sample={"stream": "binary64-table SeededBinarySegmentation", "score": name, "n": n, "m": m, "n_intervals": len(ivs), "impl_changepoints": cpts})
         ctx.count("float_stream", "sbs:" + name)
     bad = coq_bad_cases(ctx.cid, HEADER, "fsbs_case", "fsbs_case_ok", terms, shard=40, tag="fsbs")
+    _spec_all(ctx, metas, bad, lambda mt: _sbs_spec(mt, mt["_rows"], mt["_argmax"], mt["_max"]), "SeededBinarySegmentation",
+              lambda mt: f"SeededBinarySegmentation({mt['score']}) on float data (n={mt['n']}, m={mt['min_segment_length']}, p={mt['p']}, {mt['data']})")
     for i in bad[:20]:
         mt = metas[i]
         err = _sbs_spec(mt, mt.pop("_rows"), mt.pop("_argmax"), mt.pop("_max"))
@@ -243,6 +248,8 @@ def cbs_float_stream(ctx, count):
                  sample={"stream": "binary64-table CircularBinarySegmentation", "score": name, "n": n, "m": m, "n_intervals": len(ivs), "impl_anomalies": anoms})
         ctx.count("float_stream", "cbs:" + name)
     bad = coq_bad_cases(ctx.cid, HEADER, "fcbs_case", "fcbs_case_ok", terms, shard=20, tag="fcbs")
+    _spec_all(ctx, metas, bad, lambda mt: _cbs_spec(mt, mt["_rows"], mt["_inner"], mt["_max"]), "CircularBinarySegmentation",
+              lambda mt: f"CircularBinarySegmentation({mt['score']}) on float data (n={mt['n']}, m={mt['min_segment_length']}, p={mt['p']}, {mt['data']})")
     for i in bad[:20]:
         mt = metas[i]
         err = _cbs_spec(mt, mt.pop("_rows"), mt.pop("_inner"), mt.pop("_max"))
@@ -259,6 +266,17 @@ def cbs_float_stream(ctx, count):
 # property-level re-checks used when the model and the implementation disagree on a float case: they decide whether the
 # disagreement is a violation of the property (stated on the scorer's own values) or only a broken tie
 # ------------------------------------------------------------------------------------------------------------------
+def _spec_all(ctx, metas, bad, spec, det, describe):
+    """the property-level re-check on EVERY case the model agrees with (cases in `bad` are handled by the caller)"""
+    skip = set(bad)
+    for i, mt in enumerate(metas):
+        if i in skip:
+            continue
+        err = spec(mt)
+        if err:
+            ctx.violation(f"{describe(mt)}: {err}", {k: v for k, v in mt.items() if not k.startswith("_")}, {"what": "float-table-spec", "detector": det})
+
+
 def _rel(a, b):
     return abs(a - b) <= 1e-9 * (abs(a) + abs(b)) + 1e-300
 
